@@ -46,9 +46,12 @@ ASSUME Comps = {CompSeq[k] : k \in 1..Len(CompSeq)}
 N == Len(CompSeq)
 StopSeq == [k \in 1..N |-> CompSeq[N + 1 - k]]
 Gens == 1..MaxGen
+\* extensions are handed the bare host, which is not a componentstatus.Reporter: their reports go nowhere
+Reporters == Comps \ {"x"}
 
 VARIABLES
   pc, i, mode,    \* run loop: program counter, component index, why components are being stopped
+  cur,            \* the component whose Start / Shutdown the loop is in
   state,          \* Collector.state
   gen,            \* generation of the configuration retrieved last
   fs,             \* <<g,c>> -> status of the component in the reporter's state machine (abridged)
@@ -65,13 +68,13 @@ VARIABLES
   stopErr,        \* some component Shutdown of the current service returned an error
   nenv, nfail, o, hist
 
-vars == <<pc, i, mode, state, gen, fs, rmu, fpc, ftg, shutReq, ctxDone, sigReg, sigQ, wbuf, wblk, wclosed,
+vars == <<pc, i, cur, mode, state, gen, fs, rmu, fpc, ftg, shutReq, ctxDone, sigReg, sigQ, wbuf, wblk, wclosed,
           openA, openB, apend, sdoneG, stopErr, nenv, nfail, o, hist>>
-view == <<pc, i, mode, state, gen, fs, rmu, fpc, ftg, shutReq, ctxDone, sigReg, sigQ, wbuf, wblk, wclosed,
+view == <<pc, i, cur, mode, state, gen, fs, rmu, fpc, ftg, shutReq, ctxDone, sigReg, sigQ, wbuf, wblk, wclosed,
           openA, openB, apend, sdoneG, stopErr, nenv, nfail, o>>
 
 Init ==
-  /\ pc = "init" /\ i = 0 /\ mode = "none" /\ state = "Starting" /\ gen = 0
+  /\ pc = "init" /\ i = 0 /\ cur = CompSeq[1] /\ mode = "none" /\ state = "Starting" /\ gen = 0
   /\ fs = [x \in Gens \X Comps |-> "None"]
   /\ rmu = [g \in Gens |-> Nobody]
   /\ fpc = [c \in Comps |-> "idle"] /\ ftg = [c \in Comps |-> 0]
@@ -88,7 +91,7 @@ Anchor ==
     [] pc = "get"                       -> "get:" \o ToS(gen + 1)
     [] pc = "create"                    -> "create:" \o ToS(gen) \o ":" \o CompSeq[i]
     [] pc \in {"startA", "startB"}      -> "start:" \o ToS(gen) \o ":" \o CompSeq[i]
-    [] pc \in {"stopA", "stopB"}        -> "stop:" \o ToS(gen) \o ":" \o StopSeq[i]
+    [] pc \in {"stopA", "stopB", "stopC", "stopCf"} -> "stop:" \o ToS(gen) \o ":" \o StopSeq[i]
     [] pc \in {"setrunning", "select", "retire0", "closing", "wclose"} -> "idle"
     [] pc \in {"pcloseA", "pcloseB"}    -> "pclose:" \o ToS(gen)
     [] pc = "provsd"                    -> "provsd"
@@ -112,9 +115,15 @@ ToStopped(s)  == IF s = "Stopping" THEN "Stopped" ELSE s
 ToPerm(s)     == IF s \in {"Starting", "OK", "Stopping"} THEN "Perm" ELSE s
 
 \* ---------------------------------------------------------------- the run loop
+\* the component the loop is dealing with (CollectorStrict takes the name from the log instead: the
+\* real order inside one service is any topological order, which is C10's business)
+CreateComp == CompSeq[i]
+StartComp  == CompSeq[i]
+StopComp   == StopSeq[i]
+
 RunBegin ==
   /\ pc = "init" /\ pc' = "get"
-  /\ UNCHANGED <<i, mode, state, gen, fs, rmu, fpc, ftg, shutReq, ctxDone, sigReg, sigQ, wbuf, wblk, wclosed,
+  /\ UNCHANGED <<i, cur, mode, state, gen, fs, rmu, fpc, ftg, shutReq, ctxDone, sigReg, sigQ, wbuf, wblk, wclosed,
                  openA, openB, apend, sdoneG, stopErr, nenv, nfail, o, hist>>
 
 \* setupConfigurationComponents: state := Starting; configProvider.Get: the resolver closes the
@@ -125,22 +134,23 @@ Get ==
   /\ \/ /\ NoFail /\ pc' = "create" /\ i' = 1
      \/ /\ Fail("get:" \o ToS(gen + 1)) /\ pc' = "bufail" /\ i' = i
   /\ o' = OGet(o, gen + 1, "Starting")
-  /\ UNCHANGED <<mode, fs, rmu, fpc, ftg, shutReq, ctxDone, sigReg, sigQ, wbuf, wblk, wclosed, apend, sdoneG, nenv>>
+  /\ UNCHANGED <<cur, mode, fs, rmu, fpc, ftg, shutReq, ctxDone, sigReg, sigQ, wbuf, wblk, wclosed, apend, sdoneG, nenv>>
 
 \* service.New: the components are created one by one; a factory may fail (nothing is shut down then)
 Create ==
   /\ pc = "create"
-  /\ LET c == CompSeq[i] IN
+  /\ LET c == CreateComp IN
      \/ /\ NoFail /\ o' = OCreate(o, gen, c, state)
         /\ IF i < N THEN i' = i + 1 /\ pc' = pc ELSE i' = 1 /\ pc' = "startA"
      \/ /\ Fail("create:" \o ToS(gen) \o ":" \o c) /\ o' = OSample(o, state) /\ pc' = "bufail" /\ i' = i
-  /\ UNCHANGED <<mode, state, gen, fs, rmu, fpc, ftg, shutReq, ctxDone, sigReg, sigQ, wbuf, wblk, wclosed,
+  /\ UNCHANGED <<cur, mode, state, gen, fs, rmu, fpc, ftg, shutReq, ctxDone, sigReg, sigQ, wbuf, wblk, wclosed,
                  openA, openB, apend, sdoneG, stopErr, nenv>>
 
 \* StartAll: ReportStatus(Starting) under the reporter mutex, then comp.Start is entered
 StartA ==
   /\ pc = "startA" /\ rmu[gen] = Nobody
-  /\ LET c == CompSeq[i] IN
+  /\ LET c == StartComp IN
+       /\ cur' = c
        /\ fs' = [fs EXCEPT ![<<gen, c>>] = IF @ = "None" THEN "Starting" ELSE @]
        /\ o' = OStartBegin(o, gen, c, state)
   /\ pc' = "startB"
@@ -150,7 +160,7 @@ StartA ==
 \* comp.Start returns; ReportOKIfStarting / ReportStatus(PermanentError) under the reporter mutex
 StartB ==
   /\ pc = "startB" /\ rmu[gen] = Nobody
-  /\ LET c == CompSeq[i] IN
+  /\ LET c == cur IN
      \/ /\ NoFail
         /\ fs' = [fs EXCEPT ![<<gen, c>>] = IF @ = "Starting" THEN "OK" ELSE @]
         /\ o' = OStartEnd(o, gen, c, TRUE, state)
@@ -160,13 +170,13 @@ StartB ==
         /\ fs' = [fs EXCEPT ![<<gen, c>>] = ToPerm(@)]
         /\ o' = OStartEnd(o, gen, c, FALSE, state)
         /\ i' = 1 /\ pc' = "stopA" /\ mode' = "startfail"     \* service.Shutdown after a failed Start
-  /\ UNCHANGED <<state, gen, rmu, fpc, ftg, shutReq, ctxDone, sigReg, sigQ, wbuf, wblk, wclosed,
+  /\ UNCHANGED <<cur, state, gen, rmu, fpc, ftg, shutReq, ctxDone, sigReg, sigQ, wbuf, wblk, wclosed,
                  openA, openB, apend, sdoneG, stopErr, nenv>>
 
 SetRunning ==
   /\ pc = "setrunning" /\ state' = "Running" /\ sigReg' = TRUE /\ pc' = "select"
   /\ o' = OSample(o, "Running")
-  /\ UNCHANGED <<i, mode, gen, fs, rmu, fpc, ftg, shutReq, ctxDone, sigQ, wbuf, wblk, wclosed,
+  /\ UNCHANGED <<i, cur, mode, gen, fs, rmu, fpc, ftg, shutReq, ctxDone, sigQ, wbuf, wblk, wclosed,
                  openA, openB, apend, sdoneG, stopErr, nenv, nfail, hist>>
 
 \* ---- the select statement: any ready case may be taken
@@ -178,34 +188,34 @@ SelWatch ==
   /\ IF Head(wbuf) = "err" THEN ToStop ELSE ToReload
   /\ \* a notifier that was blocked on the full buffer has now returned
      o' = IF wblk # <<>> THEN ONotified(o, Head(wblk) = "err", FALSE, state) ELSE o
-  /\ UNCHANGED <<i, mode, state, gen, fs, rmu, fpc, ftg, shutReq, ctxDone, sigReg, sigQ, wclosed,
+  /\ UNCHANGED <<i, cur, mode, state, gen, fs, rmu, fpc, ftg, shutReq, ctxDone, sigReg, sigQ, wclosed,
                  openA, openB, apend, sdoneG, stopErr, nenv, nfail, hist>>
 SelAsync ==
   /\ pc = "select" /\ ToStop
   /\ IF Blocking
        THEN \E c \in Comps : fpc[c] = "sending" /\ fpc' = [fpc EXCEPT ![c] = "sent"] /\ apend' = apend
        ELSE \E g \in apend : apend' = apend \ {g} /\ fpc' = fpc
-  /\ UNCHANGED <<i, mode, state, gen, fs, rmu, ftg, shutReq, ctxDone, sigReg, sigQ, wbuf, wblk, wclosed,
+  /\ UNCHANGED <<i, cur, mode, state, gen, fs, rmu, ftg, shutReq, ctxDone, sigReg, sigQ, wbuf, wblk, wclosed,
                  openA, openB, sdoneG, stopErr, nenv, nfail, o, hist>>
 SelSignal ==
   /\ pc = "select" /\ sigQ # <<>> /\ sigQ' = Tail(sigQ)
   /\ IF Head(sigQ) = "hup" THEN ToReload ELSE ToStop
-  /\ UNCHANGED <<i, mode, state, gen, fs, rmu, fpc, ftg, shutReq, ctxDone, sigReg, wbuf, wblk, wclosed,
+  /\ UNCHANGED <<i, cur, mode, state, gen, fs, rmu, fpc, ftg, shutReq, ctxDone, sigReg, wbuf, wblk, wclosed,
                  openA, openB, apend, sdoneG, stopErr, nenv, nfail, o, hist>>
 SelShutdown ==
   /\ pc = "select" /\ shutReq /\ ToStop
-  /\ UNCHANGED <<i, mode, state, gen, fs, rmu, fpc, ftg, shutReq, ctxDone, sigReg, sigQ, wbuf, wblk, wclosed,
+  /\ UNCHANGED <<i, cur, mode, state, gen, fs, rmu, fpc, ftg, shutReq, ctxDone, sigReg, sigQ, wbuf, wblk, wclosed,
                  openA, openB, apend, sdoneG, stopErr, nenv, nfail, o, hist>>
 SelCtx ==
   /\ pc = "select" /\ ctxDone /\ ToStop
-  /\ UNCHANGED <<i, mode, state, gen, fs, rmu, fpc, ftg, shutReq, ctxDone, sigReg, sigQ, wbuf, wblk, wclosed,
+  /\ UNCHANGED <<i, cur, mode, state, gen, fs, rmu, fpc, ftg, shutReq, ctxDone, sigReg, sigQ, wbuf, wblk, wclosed,
                  openA, openB, apend, sdoneG, stopErr, nenv, nfail, o, hist>>
 
 \* reloadConfiguration: state := Closing, service.Shutdown, setupConfigurationComponents
 Retire0 ==
   /\ pc = "retire0" /\ state' = "Closing" /\ pc' = "stopA" /\ i' = 1 /\ mode' = "retire"
   /\ o' = OSample(o, "Closing")
-  /\ UNCHANGED <<gen, fs, rmu, fpc, ftg, shutReq, ctxDone, sigReg, sigQ, wbuf, wblk, wclosed,
+  /\ UNCHANGED <<cur, gen, fs, rmu, fpc, ftg, shutReq, ctxDone, sigReg, sigQ, wbuf, wblk, wclosed,
                  openA, openB, apend, sdoneG, stopErr, nenv, nfail, hist>>
 
 \* shutdown: state := Closing; configProvider.Shutdown = close(watcher), close the retrievals,
@@ -213,78 +223,85 @@ Retire0 ==
 Closing ==
   /\ pc = "closing" /\ state' = "Closing" /\ pc' = "wclose"
   /\ o' = OSample(o, "Closing")
-  /\ UNCHANGED <<i, mode, gen, fs, rmu, fpc, ftg, shutReq, ctxDone, sigReg, sigQ, wbuf, wblk, wclosed,
+  /\ UNCHANGED <<i, cur, mode, gen, fs, rmu, fpc, ftg, shutReq, ctxDone, sigReg, sigQ, wbuf, wblk, wclosed,
                  openA, openB, apend, sdoneG, stopErr, nenv, nfail, hist>>
 WClose ==
   /\ pc = "wclose" /\ wclosed' = TRUE /\ wblk' = <<>> /\ pc' = "pcloseA"
   /\ \* a sender blocked on the buffer panics when the channel is closed under it
      \* (SafeWatch: it is released by the done channel first and returns)
      o' = IF wblk # <<>> THEN ONotified(o, FALSE, ~SafeWatch, state) ELSE o
-  /\ UNCHANGED <<i, mode, state, gen, fs, rmu, fpc, ftg, shutReq, ctxDone, sigReg, sigQ, wbuf,
+  /\ UNCHANGED <<i, cur, mode, state, gen, fs, rmu, fpc, ftg, shutReq, ctxDone, sigReg, sigQ, wbuf,
                  openA, openB, apend, sdoneG, stopErr, nenv, nfail, hist>>
 PCloseA ==
   /\ pc = "pcloseA" /\ openA' = FALSE /\ pc' = "pcloseB"
-  /\ UNCHANGED <<i, mode, state, gen, fs, rmu, fpc, ftg, shutReq, ctxDone, sigReg, sigQ, wbuf, wblk, wclosed,
+  /\ UNCHANGED <<i, cur, mode, state, gen, fs, rmu, fpc, ftg, shutReq, ctxDone, sigReg, sigQ, wbuf, wblk, wclosed,
                  openB, apend, sdoneG, stopErr, nenv, nfail, o, hist>>
 PCloseB ==
   /\ pc = "pcloseB" /\ openB' = FALSE /\ pc' = "provsd"
-  /\ UNCHANGED <<i, mode, state, gen, fs, rmu, fpc, ftg, shutReq, ctxDone, sigReg, sigQ, wbuf, wblk, wclosed,
+  /\ UNCHANGED <<i, cur, mode, state, gen, fs, rmu, fpc, ftg, shutReq, ctxDone, sigReg, sigQ, wbuf, wblk, wclosed,
                  openA, apend, sdoneG, stopErr, nenv, nfail, o, hist>>
 ProvSd ==
   /\ pc = "provsd" /\ o' = OProv(o, state) /\ pc' = "stopA" /\ i' = 1 /\ mode' = "final"
-  /\ UNCHANGED <<state, gen, fs, rmu, fpc, ftg, shutReq, ctxDone, sigReg, sigQ, wbuf, wblk, wclosed,
+  /\ UNCHANGED <<cur, state, gen, fs, rmu, fpc, ftg, shutReq, ctxDone, sigReg, sigQ, wbuf, wblk, wclosed,
                  openA, openB, apend, sdoneG, stopErr, nenv, nfail, hist>>
 
 \* ShutdownAll: ReportStatus(Stopping) under the reporter mutex, then comp.Shutdown is entered
 StopA ==
   /\ pc = "stopA" /\ rmu[gen] = Nobody
-  /\ LET c == StopSeq[i] IN
+  /\ LET c == StopComp IN
+       /\ cur' = c
        /\ fs' = [fs EXCEPT ![<<gen, c>>] = ToStopping(@)]
        /\ o' = OStopBegin(o, gen, c, state)
   /\ pc' = "stopB"
   /\ UNCHANGED <<i, mode, state, gen, rmu, fpc, ftg, shutReq, ctxDone, sigReg, sigQ, wbuf, wblk, wclosed,
                  openA, openB, apend, sdoneG, stopErr, nenv, nfail, hist>>
 
-\* comp.Shutdown returns; ReportStatus(Stopped / PermanentError) under the reporter mutex.
-\* After the last component the service is down: Run goes on according to why it was stopped.
+\* comp.Shutdown returns (with or without an error)
 StopB ==
-  /\ pc = "stopB" /\ rmu[gen] = Nobody
-  /\ LET c == StopSeq[i] IN
-     \E ok \in BOOLEAN :
-        /\ IF ok THEN NoFail ELSE Fail("stop:" \o ToS(gen) \o ":" \o c)
-        /\ fs' = [fs EXCEPT ![<<gen, c>>] = IF ok THEN ToStopped(@) ELSE ToPerm(@)]
-        /\ o' = OStopEnd(o, gen, c, ok, state)
+  /\ pc = "stopB"
+  /\ \E ok \in BOOLEAN :
+        /\ IF ok THEN NoFail ELSE Fail("stop:" \o ToS(gen) \o ":" \o cur)
+        /\ o' = OStopEnd(o, gen, cur, ok, state)
         /\ stopErr' = (stopErr \/ ~ok)
-        /\ IF i < N
-             THEN i' = i + 1 /\ pc' = "stopA" /\ sdoneG' = sdoneG /\ apend' = apend
-             ELSE /\ i' = i /\ sdoneG' = sdoneG \cup {gen}
-                  /\ apend' = apend \ {gen}     \* (Blocking = FALSE) pending senders of this service give up
-                  /\ pc' = CASE mode = "retire"    -> IF stopErr \/ ~ok THEN "reterr" ELSE "get"
-                             [] mode = "final"     -> "setclosed"
-                             [] mode = "startfail" -> "bufail"
-  /\ UNCHANGED <<mode, state, gen, rmu, fpc, ftg, shutReq, ctxDone, sigReg, sigQ, wbuf, wblk, wclosed,
-                 openA, openB, nenv>>
+        /\ pc' = IF ok THEN "stopC" ELSE "stopCf"
+  /\ UNCHANGED <<i, cur, mode, state, gen, fs, rmu, fpc, ftg, shutReq, ctxDone, sigReg, sigQ, wbuf, wblk, wclosed,
+                 openA, openB, apend, sdoneG, nenv>>
+
+\* ReportStatus(Stopped / PermanentError) under the reporter mutex.
+\* After the last component the service is down: Run goes on according to why it was stopped.
+StopC ==
+  /\ pc \in {"stopC", "stopCf"} /\ rmu[gen] = Nobody
+  /\ fs' = [fs EXCEPT ![<<gen, cur>>] = IF pc = "stopC" THEN ToStopped(@) ELSE ToPerm(@)]
+  /\ IF i < N
+       THEN i' = i + 1 /\ pc' = "stopA" /\ sdoneG' = sdoneG /\ apend' = apend
+       ELSE /\ i' = i /\ sdoneG' = sdoneG \cup {gen}
+            /\ apend' = apend \ {gen}     \* (Blocking = FALSE) pending senders of this service give up
+            /\ pc' = CASE mode = "retire"    -> IF stopErr THEN "reterr" ELSE "get"
+                       [] mode = "final"     -> "setclosed"
+                       [] mode = "startfail" -> "bufail"
+  /\ UNCHANGED <<cur, mode, state, gen, rmu, fpc, ftg, shutReq, ctxDone, sigReg, sigQ, wbuf, wblk, wclosed,
+                 openA, openB, stopErr, nenv, nfail, o, hist>>
 
 \* the bring-up failed: Run returns the error (the first time it also sets Closed)
 BuFail ==
   /\ pc = "bufail" /\ pc' = "returned"
   /\ state' = IF gen = 1 THEN "Closed" ELSE state
   /\ o' = OReturn(o, TRUE, state')
-  /\ UNCHANGED <<i, mode, gen, fs, rmu, fpc, ftg, shutReq, ctxDone, sigReg, sigQ, wbuf, wblk, wclosed,
+  /\ UNCHANGED <<i, cur, mode, gen, fs, rmu, fpc, ftg, shutReq, ctxDone, sigReg, sigQ, wbuf, wblk, wclosed,
                  openA, openB, apend, sdoneG, stopErr, nenv, nfail, hist>>
 \* the retiring service failed to shut down: Run returns the error
 RetErr ==
   /\ pc = "reterr" /\ pc' = "returned" /\ o' = OReturn(o, TRUE, state)
-  /\ UNCHANGED <<i, mode, state, gen, fs, rmu, fpc, ftg, shutReq, ctxDone, sigReg, sigQ, wbuf, wblk, wclosed,
+  /\ UNCHANGED <<i, cur, mode, state, gen, fs, rmu, fpc, ftg, shutReq, ctxDone, sigReg, sigQ, wbuf, wblk, wclosed,
                  openA, openB, apend, sdoneG, stopErr, nenv, nfail, hist>>
 SetClosed ==
   /\ pc = "setclosed" /\ state' = "Closed" /\ pc' = "returned" /\ o' = OReturn(o, stopErr, "Closed")
-  /\ UNCHANGED <<i, mode, gen, fs, rmu, fpc, ftg, shutReq, ctxDone, sigReg, sigQ, wbuf, wblk, wclosed,
+  /\ UNCHANGED <<i, cur, mode, gen, fs, rmu, fpc, ftg, shutReq, ctxDone, sigReg, sigQ, wbuf, wblk, wclosed,
                  openA, openB, apend, sdoneG, stopErr, nenv, nfail, hist>>
 
 RunNext == RunBegin \/ Get \/ Create \/ StartA \/ StartB \/ SetRunning
            \/ SelWatch \/ SelAsync \/ SelSignal \/ SelShutdown \/ SelCtx
-           \/ Retire0 \/ Closing \/ WClose \/ PCloseA \/ PCloseB \/ ProvSd \/ StopA \/ StopB
+           \/ Retire0 \/ Closing \/ WClose \/ PCloseA \/ PCloseB \/ ProvSd \/ StopA \/ StopB \/ StopC
            \/ BuFail \/ RetErr \/ SetClosed
 
 \* ---------------------------------------------------------------- components reporting a fatal error
@@ -294,7 +311,7 @@ FatalWant(c) ==
   /\ fpc[c] = "idle" /\ Reporting(c) # {} /\ Env("fatal", c)
   /\ ftg' = [ftg EXCEPT ![c] = CHOOSE g \in Reporting(c) : \A h \in Reporting(c) : h <= g]
   /\ fpc' = [fpc EXCEPT ![c] = "want"]
-  /\ UNCHANGED <<pc, i, mode, state, gen, fs, rmu, shutReq, ctxDone, sigReg, sigQ, wbuf, wblk, wclosed,
+  /\ UNCHANGED <<pc, i, cur, mode, state, gen, fs, rmu, shutReq, ctxDone, sigReg, sigQ, wbuf, wblk, wclosed,
                  openA, openB, apend, sdoneG, stopErr, nfail, o>>
 \* reporter.ReportStatus: lock; transition; onStatusChange -> Host.NotifyComponentStatusChange
 FatalLock(c) ==
@@ -311,11 +328,11 @@ FatalLock(c) ==
                       /\ apend' = IF g \in sdoneG THEN apend ELSE apend \cup {g}
        ELSE \* invalid transition: nobody is notified
             fs' = fs /\ o' = o /\ rmu' = rmu /\ apend' = apend /\ fpc' = [fpc EXCEPT ![c] = "done"]
-  /\ UNCHANGED <<pc, i, mode, state, gen, ftg, shutReq, ctxDone, sigReg, sigQ, wbuf, wblk, wclosed,
+  /\ UNCHANGED <<pc, i, cur, mode, state, gen, ftg, shutReq, ctxDone, sigReg, sigQ, wbuf, wblk, wclosed,
                  openA, openB, sdoneG, stopErr, nenv, nfail, hist>>
 FatalUnlock(c) ==
   /\ fpc[c] = "sent" /\ rmu' = [rmu EXCEPT ![ftg[c]] = Nobody] /\ fpc' = [fpc EXCEPT ![c] = "done"]
-  /\ UNCHANGED <<pc, i, mode, state, gen, fs, ftg, shutReq, ctxDone, sigReg, sigQ, wbuf, wblk, wclosed,
+  /\ UNCHANGED <<pc, i, cur, mode, state, gen, fs, ftg, shutReq, ctxDone, sigReg, sigQ, wbuf, wblk, wclosed,
                  openA, openB, apend, sdoneG, stopErr, nenv, nfail, o, hist>>
 RepNext == \E c \in Comps : FatalLock(c) \/ FatalUnlock(c)
 
@@ -326,12 +343,12 @@ ExtShutdown ==
   /\ Env("shutdown", "")
   /\ shutReq' = (shutReq \/ state \in {"Running", "Starting"})
   /\ o' = OExtShutdownEnd(OExtShutdownBegin(o, 0, state), 0, state, FALSE)
-  /\ UNCHANGED <<pc, i, mode, state, gen, fs, rmu, fpc, ftg, ctxDone, sigReg, sigQ, wbuf, wblk, wclosed,
+  /\ UNCHANGED <<pc, i, cur, mode, state, gen, fs, rmu, fpc, ftg, ctxDone, sigReg, sigQ, wbuf, wblk, wclosed,
                  openA, openB, apend, sdoneG, stopErr, nfail>>
 ExtCtx ==
   /\ ~ctxDone /\ pc \notin {"init", "returned"} /\ Env("ctx", "") /\ ctxDone' = TRUE
   /\ o' = OExtCtx(o, state)
-  /\ UNCHANGED <<pc, i, mode, state, gen, fs, rmu, fpc, ftg, shutReq, sigReg, sigQ, wbuf, wblk, wclosed,
+  /\ UNCHANGED <<pc, i, cur, mode, state, gen, fs, rmu, fpc, ftg, shutReq, sigReg, sigQ, wbuf, wblk, wclosed,
                  openA, openB, apend, sdoneG, stopErr, nfail>>
 \* the number of reloads is bounded by bounding the triggers
 Triggers == o.ntrig
@@ -339,7 +356,7 @@ ExtSignal(s) ==
   /\ pc \notin {"init", "returned"} /\ (s = "sighup" => Triggers < MaxGen - 1) /\ Env(s, "")
   /\ sigQ' = IF sigReg /\ Len(sigQ) < 3 THEN Append(sigQ, IF s = "sighup" THEN "hup" ELSE "term") ELSE sigQ
   /\ o' = IF s = "sighup" THEN OExtSighup(o, sigReg, state) ELSE OExtSigterm(o, sigReg, state)
-  /\ UNCHANGED <<pc, i, mode, state, gen, fs, rmu, fpc, ftg, shutReq, ctxDone, sigReg, wbuf, wblk, wclosed,
+  /\ UNCHANGED <<pc, i, cur, mode, state, gen, fs, rmu, fpc, ftg, shutReq, ctxDone, sigReg, wbuf, wblk, wclosed,
                  openA, openB, apend, sdoneG, stopErr, nfail>>
 \* a provider calls the watcher function of a retrieval that is still open: Resolver.onChange
 ExtChange(v) ==
@@ -352,17 +369,17 @@ ExtChange(v) ==
        ELSE IF wbuf = <<>>
               THEN /\ wbuf' = <<v>> /\ wblk' = wblk /\ o' = ONotified(o1, v = "err", FALSE, state)
               ELSE /\ wblk' = Append(wblk, v) /\ wbuf' = wbuf /\ o' = o1
-  /\ UNCHANGED <<pc, i, mode, state, gen, fs, rmu, fpc, ftg, shutReq, ctxDone, sigReg, sigQ, wclosed,
+  /\ UNCHANGED <<pc, i, cur, mode, state, gen, fs, rmu, fpc, ftg, shutReq, ctxDone, sigReg, sigQ, wclosed,
                  openA, openB, apend, sdoneG, stopErr, nfail>>
 EnvNext == ExtShutdown \/ ExtCtx \/ ExtSignal("sighup") \/ ExtSignal("sigterm")
-           \/ ExtChange("ok") \/ ExtChange("err") \/ \E c \in Comps : FatalWant(c)
+           \/ ExtChange("ok") \/ ExtChange("err") \/ \E c \in Reporters : FatalWant(c)
 
 \* ---------------------------------------------------------------- the watchdog
 \* neither the run loop nor a reporter can take a step and Run has not returned
 Quiescent == pc \notin {"returned", "timedout"} /\ ~ENABLED RunNext /\ ~ENABLED RepNext
 Timeout ==
   /\ Quiescent /\ TimeoutGate /\ pc' = "timedout" /\ o' = OTimeout(o, state)
-  /\ UNCHANGED <<i, mode, state, gen, fs, rmu, fpc, ftg, shutReq, ctxDone, sigReg, sigQ, wbuf, wblk, wclosed,
+  /\ UNCHANGED <<i, cur, mode, state, gen, fs, rmu, fpc, ftg, shutReq, ctxDone, sigReg, sigQ, wbuf, wblk, wclosed,
                  openA, openB, apend, sdoneG, stopErr, nenv, nfail, hist>>
 
 Next == RunNext \/ RepNext \/ EnvNext \/ Timeout
